@@ -94,11 +94,12 @@ func newSolver(timeoutMs int) *Solver {
 	sc := bufio.NewScanner(out)
 	sc.Buffer(make([]byte, 1<<20), 1<<26)
 	s := &Solver{cmd: cmd, in: in, out: sc, p: newPrinter(), cache: map[*T]bool{}, lines: make(chan string, 1024), hardMs: 10*timeoutMs + 2000, timeoutMs: timeoutMs}
+	ch := s.lines
 	go func() {
 		for sc.Scan() {
-			s.lines <- sc.Text()
+			ch <- sc.Text()
 		}
-		close(s.lines)
+		close(ch)
 	}()
 	return s
 }
@@ -344,7 +345,7 @@ func runSolverFile(solver string, file string, timeout time.Duration) (string, s
 	return verdict, rest
 }
 
-func solveQueries(ex *Exec, qs []Query, dir string, timeout time.Duration, workers int, solver string, cross bool) []QResult {
+func solveQueries(ex *Exec, qs []Query, dir string, timeout time.Duration, workers int, solver string, cross bool, oneShot bool) []QResult {
 	res := make([]QResult, len(qs))
 	var pending []int
 	for i, q := range qs {
@@ -375,6 +376,34 @@ func solveQueries(ex *Exec, qs []Query, dir string, timeout time.Duration, worke
 	}
 	if workers < 1 {
 		workers = 1
+	}
+	if oneShot {
+		// one fresh, non-incremental solver run per query (no push/pop): z3 then applies its full
+		// tactic pipeline (nlsat for non-linear real arithmetic), which the incremental core does not
+		var wg sync.WaitGroup
+		sem := make(chan struct{}, workers)
+		for _, i := range pending {
+			file := filepath.Join(dir, fmt.Sprintf("q%03d.smt2", i))
+			text := buildQueryText(ex.assumes, qs[i].cond, false)
+			os.WriteFile(file, []byte(text), 0o644)
+			res[i].Nodes = strings.Count(text, "(declare-const n")
+			res[i].File = file
+			wg.Add(1)
+			go func(i int, file string) {
+				defer wg.Done()
+				sem <- struct{}{}
+				defer func() { <-sem }()
+				t0 := time.Now()
+				v, rest := runSolverFile(solver, file, timeout)
+				res[i].Verdict = v
+				res[i].Secs = time.Since(t0).Seconds()
+				if v == "sat" {
+					res[i].Model = parseModel(rest)
+				}
+			}(i, file)
+		}
+		wg.Wait()
+		return res
 	}
 	nb := min(workers, len(pending))
 	batches := make([][]int, nb)
